@@ -34,7 +34,8 @@ SELECTORS = ['p|a', 'q|a', '*|a', '|a', 'a', '[p|x]']
 PFX = ['p', 'q', '']
 URIS = ['u', 'v']
 SEEDS = [
-    ('@namespace p "u";p|a{x:y}', '@namespace q "u";@namespace p "v";'),
+    # (with a rule two @media levels down: selectors at any depth follow the sheet's declarations)
+    ('@namespace p "u";p|a{x:y}@media all{@media print{p|n{x:y}}}', '@namespace q "u";@namespace p "v";'),
     ('@namespace "u";a{x:y}', '@namespace q "u";@namespace p "v";'),
     ('', '@namespace q "u";@namespace p "v";'),
     # the other sheet does not declare the URI (a rule that uses it cannot move there)
@@ -194,6 +195,8 @@ def sheet_pairs(s):
     for r in s.cssRules:
         if r.type == R.STYLE_RULE:
             out.append(tuple(pairs(sel) for sel in r.selectorList))
+        elif r.type == R.MEDIA_RULE:
+            out.extend(sheet_pairs(r))
     return tuple(out)
 
 
@@ -302,7 +305,13 @@ NAMESPACE_EDITS = ('nsset', 'nsdel', 'insns', 'addns', 'delns', 'prefix')
 def _others(s):
     """the rules a namespace edit must leave alone: everything but @namespace rules (style rules by position only: their
     prefixes may be rewritten)"""
-    return [(r.typeString, None if r.type == R.STYLE_RULE else r.cssText) for r in s.cssRules if r.type != R.NAMESPACE_RULE]
+    def shape(r):
+        if r.type == R.STYLE_RULE:
+            return None
+        if r.type == R.MEDIA_RULE:
+            return (r.media.mediaText, [(n.typeString, shape(n)) for n in r.cssRules])
+        return r.cssText
+    return [(r.typeString, shape(r)) for r in s.cssRules if r.type != R.NAMESPACE_RULE]
 
 
 def step(res, hist, op, tier):
@@ -354,7 +363,7 @@ def step(res, hist, op, tier):
             res.clauses['C15.meaning-kept'] += 1
             pa, pb = before[0][2] + before[1][2], after[0][2] + after[1][2]
             if op[0] in ('toB', 'toA'):
-                pa, pb = tuple(sorted(pa)), tuple(sorted(pb))
+                pa, pb = tuple(sorted(pa, key=repr)), tuple(sorted(pb, key=repr))
             if _prefixed_only(pa) != _prefixed_only(pb):
                 res.violation('C15.meaning-kept', f'{op[0]}|prefixed-name-denotes-other-pair', case, _prefixed_only(pa), _prefixed_only(pb), size=size)
         # a selector using an undeclared prefix is rejected
